@@ -246,6 +246,29 @@ type frame struct {
 	deferred []*ast.CallExpr
 	depth    int
 	lits     map[types.Object]*ast.FuncLit // closures bound once to a local variable (f := func() {...})
+	keys     map[types.Object]string       // parameters of an inlined callee -> the caller's argument, as a key expression
+}
+
+// keyString: a map key / cluster / group expression with the parameters of inlined callees replaced by the arguments they
+// were called with, so that `clusterMap.consumer[group]` inside getOrCreateGroup(request.Group) is still "the group named
+// by request.Group"
+func (f *frame) keyString(e ast.Expr) string {
+	switch e := e.(type) {
+	case *ast.Ident:
+		if f.keys != nil {
+			if obj := f.objOf(e); obj != nil {
+				if s, ok := f.keys[obj]; ok {
+					return s
+				}
+			}
+		}
+		return e.Name
+	case *ast.SelectorExpr:
+		return f.keyString(e.X) + "." + e.Sel.Name
+	case *ast.ParenExpr:
+		return f.keyString(e.X)
+	}
+	return exprString(e)
 }
 
 // litOf resolves the callee of a call to a function literal: the literal itself, or a local variable that is bound to
@@ -269,13 +292,17 @@ func (f *frame) litOf(fun ast.Expr) *ast.FuncLit {
 // bindLit: frame for the invocation of a closure: it shares the variables of the enclosing function (flow-insensitive
 // owners), has its own deferred calls, and its parameters take the owners of the arguments.
 func (f *frame) bindLit(fl *ast.FuncLit, args []ast.Expr) *frame {
-	nf := &frame{fname: f.fname, env: f.env, depth: f.depth + 1, lits: f.lits}
+	nf := &frame{fname: f.fname, env: f.env, depth: f.depth + 1, lits: f.lits, keys: map[types.Object]string{}}
+	for k, v := range f.keys {
+		nf.keys[k] = v
+	}
 	i := 0
 	changed := false
 	for _, p := range fl.Type.Params.List {
 		for _, n := range p.Names {
 			if i < len(args) {
 				if obj := info.Defs[n]; obj != nil {
+					nf.keys[obj] = f.keyString(args[i])
 					o := f.owner(args[i])
 					if old, ok := nf.env[obj]; !ok || join(old, o) != old {
 						if ok {
@@ -398,10 +425,10 @@ func (f *frame) owner0(e ast.Expr) owner {
 		o := f.owner(e.X)
 		switch o.k {
 		case oOffsets:
-			return owner{k: oCluster, cl: exprString(e.Index)}
+			return owner{k: oCluster, cl: f.keyString(e.Index)}
 		case oConsMap:
-			g := "any:" + exprString(e.Index)
-			if exprString(e.Index) == "request.Group" {
+			g := "any:" + f.keyString(e.Index)
+			if f.keyString(e.Index) == "request.Group" {
 				g = "own"
 			}
 			return owner{k: oGroup, cl: o.cl, grp: g}
@@ -489,15 +516,17 @@ func (f *frame) callOwner(e *ast.CallExpr, idx int) owner {
 
 // bind builds the callee frame: parameters (and receiver) take the owners of the arguments.
 func (f *frame) bind(fd *ast.FuncDecl, recv ast.Expr, args []ast.Expr) *frame {
-	nf := &frame{fname: fd.Name.Name, env: map[types.Object]owner{}, depth: f.depth + 1}
+	nf := &frame{fname: fd.Name.Name, env: map[types.Object]owner{}, depth: f.depth + 1, keys: map[types.Object]string{}}
 	if fd.Recv != nil && len(fd.Recv.List) == 1 && len(fd.Recv.List[0].Names) == 1 && recv != nil {
 		nf.env[info.Defs[fd.Recv.List[0].Names[0]]] = f.owner(recv)
+		nf.keys[info.Defs[fd.Recv.List[0].Names[0]]] = f.keyString(recv)
 	}
 	i := 0
 	for _, fl := range fd.Type.Params.List {
 		for _, n := range fl.Names {
 			if i < len(args) {
 				nf.env[info.Defs[n]] = f.owner(args[i])
+				nf.keys[info.Defs[n]] = f.keyString(args[i])
 			}
 			i++
 		}
@@ -512,7 +541,7 @@ func (f *frame) retOwner(fd *ast.FuncDecl, recv ast.Expr, args []ast.Expr, idx i
 	}
 	key := retKey{fn: fd.Name.Name}
 	for _, a := range args {
-		key.args += fmt.Sprintf("%v;", f.owner(a))
+		key.args += fmt.Sprintf("%v/%s;", f.owner(a), f.keyString(a))
 	}
 	if recv != nil {
 		key.args += fmt.Sprintf("r%v", f.owner(recv))
@@ -1163,7 +1192,7 @@ func (w *walker) call(f *frame, c *ast.CallExpr) {
 					if fl, isLit := a.(*ast.FuncLit); isLit && fn.Sel.Name == "Do" {
 						// Ring.Do calls the closure synchronously for every element (its parameter already carries the
 						// ring's owner, see solve)
-						w.function(&frame{fname: f.fname, env: f.env, depth: f.depth + 1, lits: f.lits}, fl.Body, fl.Pos())
+						w.function(&frame{fname: f.fname, env: f.env, depth: f.depth + 1, lits: f.lits, keys: f.keys}, fl.Body, fl.Pos())
 						continue
 					}
 					w.expr(f, a, false)
